@@ -189,6 +189,24 @@ def rule_pipeline(ctx):
                   line=f[0].ast.lineno, function=fi.qualname,
                   expected="kwargs.setdefault('modified', kwargs['custom_properties']['modified']) before the branch (or a test of both)",
                   found=norm(f[0].ast.test))
+        # the move reads ['modified'] of custom_properties: it stands under a POSITIVE membership test for that key (or .get);
+        # under the negated test every new_version(custom_properties={...}) without a modified time raises KeyError
+        for mv in moved:
+            subs = [x_ for x_ in ast.walk(mv) if isinstance(x_, ast.Subscript) and isinstance(x_.slice, ast.Constant) and x_.slice.value == "modified"
+                    and isinstance(x_.ctx, ast.Load) and "custom_properties" in norm(x_.value)]
+            if not subs:
+                continue
+            okp = any(pol and isinstance(t_, ast.Compare) and len(t_.ops) == 1 and isinstance(t_.ops[0], ast.In)
+                      and isinstance(t_.left, ast.Constant) and t_.left.value == "modified" and "custom_properties" in norm(t_.comparators[0])
+                      for t_, pol, _ in guard_chain(mv)) or any(
+                (not pol) and isinstance(t_, ast.Compare) and len(t_.ops) == 1 and isinstance(t_.ops[0], ast.NotIn)
+                and isinstance(t_.left, ast.Constant) and t_.left.value == "modified" and "custom_properties" in norm(t_.comparators[0])
+                for t_, pol, _ in guard_chain(mv))
+            run.check(okp, R, key(rel, fi.qualname, "moved-modified-read-under-presence-test"),
+                      "the modified time is read from custom_properties with a subscript that is not under a positive presence "
+                      "test: KeyError('modified') escapes from new_version() for every change set given through custom_properties "
+                      "without a modified time (or the supplied time is ignored)", file=rel, line=mv.lineno, function=fi.qualname,
+                      expected="if 'modified' in kwargs['custom_properties']: ...", found=[norm(t_) for t_, _p, _ in guard_chain(mv)])
     if f:
         br = f[0].ast
         sup = [s for s in br.body if isinstance(s, ast.If) and any(isinstance(x, ast.Raise) for x in s.body)]
